@@ -31,7 +31,7 @@ BOUNDS = {
     "quick": "full detector runs: m=1: n<=5; m=2: n<=8; m=3: n<=9; max_interval_length in {2m, 2m+1, n, 200}; "
              "growth_factor in {1.5, 2}; p in {1,2}; interval grid (concrete) for n<=40; all scores and the "
              "threshold scale symbolic",
-    "thorough": "m=1: n<=6; m in {2,3}: n<=10; growth_factor in {1.1, 1.5, 2}; p<=2; interval grid for n<=120",
+    "thorough": "m=1: n<=4 (growth factors 1.1, 1.5, 2), n=5 (1.5, 2), n=6 with M=3 or growth factor 2; m=2: n<=8; m=3: n<=10; p<=2; interval grid for n<=120",
 }
 STUBS = ["TableChangeScore: user-defined change score returning one free real per (start, split, end, column)"]
 ASSUMPTIONS = ["threshold_scale >= 0", "greedy equivalence is decided on paths whose interval scores can be pairwise "
@@ -237,10 +237,12 @@ def jobs(tier, mode="c07"):
         gridargs = dict(nmax=40, ms=[1, 2, 3, 5], gfs=[1.5, 2.0])
     else:
         cfgs = []
-        for n in range(2, 6):
+        for n in range(2, 5):
             for M in sorted({2, 3, n, 200}):
                 for gf in (1.1, 1.5, 2.0):
                     cfgs.append((n, 1, M, gf, 1))
+        # n=5, m=1: M=5 with gf=1.5 has 140 448 paths (measured); gf=1.1 generates even more intervals -- left out
+        cfgs += [(5, 1, 2, 1.5, 1), (5, 1, 3, 1.5, 1), (5, 1, 200, 2.0, 1), (5, 1, 5, 1.5, 1)]
         cfgs += [(4, 1, 200, 1.5, 2), (6, 1, 3, 1.5, 1), (6, 1, 200, 2.0, 1)]
         for m in (2, 3):
             for n in range(2 * m, 9 if m == 2 else 11):
